@@ -541,7 +541,7 @@ pub fn run(cfg: &Cfg) -> Report {
         }
         return rep;
     }
-    let n = cfg.budget(2500, 150_000) / cfg.threads as u64;
+    let n = cfg.budget(2500, 30_000) / cfg.threads as u64;
     let np = cfg.budget(800, 40_000) / cfg.threads as u64;
     let mut rep = par(cfg.threads, |w| {
         let mut r = Report::new();
